@@ -78,7 +78,10 @@ func (l Lin) equal(o Lin) bool { return l.String() == o.String() }
 // equal (recPos vs length → POS).
 type linEnv struct {
 	Rename map[string]string
-	depth  int
+	// Canon, when set, is consulted first: it may give a value a canonical
+	// atom name (e.g. every variant of "the size of this record" -> SZ).
+	Canon func(ssa.Value) (string, bool)
+	depth int
 }
 
 func paramIndex(p *ssa.Parameter) int {
@@ -182,6 +185,11 @@ func (env linEnv) sliceLen(v ssa.Value) (Lin, bool) {
 
 // lin normalises an integer SSA value.
 func (env linEnv) lin(v ssa.Value) Lin {
+	if env.Canon != nil {
+		if a, ok := env.Canon(v); ok {
+			return linAtom(a)
+		}
+	}
 	switch x := v.(type) {
 	case *ssa.Const:
 		if c, ok := intConst(x); ok {
@@ -235,7 +243,7 @@ func (env linEnv) lin(v ssa.Value) Lin {
 			// inline single-return affine helpers (e.g. NextPos)
 			rets := returnsOf(f)
 			if len(rets) == 1 && len(rets[0].Results) == 1 {
-				sub := linEnv{Rename: env.Rename, depth: env.depth + 1}
+				sub := linEnv{Rename: env.Rename, Canon: env.Canon, depth: env.depth + 1}
 				l := sub.lin(rets[0].Results[0])
 				// substitute parameters by the call's arguments
 				out := linConst(l.C)
